@@ -568,7 +568,7 @@ type Query struct {
 	fullC    []uint64
 }
 
-const MaxTracked = 18
+const MaxTracked = 20
 
 // NewQuery creates a query tracking the given atoms plus every "derived flag": a boolean phi
 // all of whose operands are constants or formulas over tracked atoms.
